@@ -156,6 +156,8 @@ def correspondences(tier, rng):
             nm = rng.choice(["@MMK_L_", "@MMK_R_", "", "", "@MMK_L_@MMK_L_", "public.kern1.", "public.kern2."]) + rng.choice(STEMS)
             groups[nm] = rng.sample(GLY, rng.randint(0, 3))
         names = GLY + list(groups) + ["zz"]
+        # glyphs whose names look like UFO 3 group names (UFO 1/2 reserve nothing): the names a renamed group would like to take
+        names += ["public.kern1.A", "public.kern2.A", "public.kern1.x", "public.kern2.B"] if rng.chance(40) else []
         kerning = {}
         for _k in range(rng.randint(0, 7)):
             kerning.setdefault(rng.choice(names), {})[rng.choice(names)] = rng.randint(-90, 90)
@@ -179,6 +181,11 @@ def correspondences(tier, rng):
         new = list(maps["side1"].values()) + list(maps["side2"].values())
         if len(set(new)) != len(new): return "two groups were renamed to the same name: %r" % (maps,)
         if any(n_ in dict(groups) for n_ in new): return "a group was renamed to an existing group's name: %r" % (maps,)
+        # ... nor the place of an existing kerning entry: every (first, second) value is found under the renamed names
+        for a, row in kerning:
+            for b, v in row.items():
+                na, nb = maps["side1"].get(a, a), maps["side2"].get(b, b)
+                if k.get(na, {}).get(nb) != v: return "kerning value (%r, %r) = %r became %r: %r -> %r" % (a, b, v, k.get(na, {}).get(nb), dict(kerning), k)
         return None
     out.append(Corr("convert_kerning", kcases, impl_k, enc=enc_k, oracle=oracle_k))
     return out
@@ -460,12 +467,15 @@ def sweeps(tier, rng):
                 for g_ in mem: side2[g_] = nm
             if rng.chance(30): groups["other"] = ["a", "b"]
             firsts = GLY[:4] + sorted(set(side1.values())); seconds = GLY[:4] + sorted(set(side2.values()))
+            # (glyphs named like UFO 3 kerning groups are left to the correspondence: UFO 3 cannot tell such a glyph from a group, so
+            # "the pair kerns as before" has no meaning for them; what can be asked -- no value is dropped or moved -- is asked there)
+            XG = []
             kerning = {}
             for _k in range(rng.randint(1, 8)):
                 kerning.setdefault(rng.choice(firsts), {})[rng.choice(seconds)] = rng.randint(-90, 90) or 5
             bad = None
             try:
-                newK, newG, maps = convertUFO1OrUFO2KerningToUFO3Kerning(copy.deepcopy(kerning), copy.deepcopy(groups), set(GLY))
+                newK, newG, maps = convertUFO1OrUFO2KerningToUFO3Kerning(copy.deepcopy(kerning), copy.deepcopy(groups), set(GLY) | set(XG))
                 # the sides after conversion: membership of the renamed groups
                 n1 = {}; n2 = {}
                 for nm, mem in newG.items():
@@ -477,8 +487,8 @@ def sweeps(tier, rng):
                 used1 = {nm for nm in groups if nm.startswith("@MMK_L_") or nm in kerning}
                 used2 = {nm for nm in groups if nm.startswith("@MMK_R_") or any(nm in v for v in kerning.values())}
                 o1 = {g_: nm for g_, nm in side1.items() if nm in used1}; o2 = {g_: nm for g_, nm in side2.items() if nm in used2}
-                for l in GLY:
-                    for r in GLY:
+                for l in GLY + XG:
+                    for r in GLY + XG:
                         v0 = value(kerning, o1, o2, l, r); v1 = value(newK, n1, n2, l, r)
                         if v0 != v1:
                             bad = "kerning of (%s, %s) is %r before and %r after the UFO2->3 conversion; groups %r kerning %r -> groups %r kerning %r rename %r" % (l, r, v0, v1, groups, kerning, newG, newK, maps); break
